@@ -266,6 +266,9 @@ func (n *Net) Kick(by, victim int, ch, reason string) []string {
 	if !n.leave(victim, ch) {
 		return nil
 	}
+	if reason == "" {
+		return []string{pfx + " KICK " + ch + " " + vn} // the comment is optional
+	}
 	return []string{pfx + " KICK " + ch + " " + vn + " :" + reason}
 }
 
